@@ -58,7 +58,7 @@ class Recorder:
                 e3 = float(tn.linalg.norm(u @ tn.diag(s.to(u.dtype)) @ v - m))
                 sr = s.real if s.is_complex() else s
                 srt = bool((sr[:-1] >= sr[1:] - tol * max(nm, 1)).all()) if k > 1 else True
-                if e1 > tol * k or e2 > tol * k or e3 > tol * max(nm, 1) * k or not srt or float(sr.min()) < -tol:
+                if not (e1 <= tol * k and e2 <= tol * k and e3 <= tol * max(nm, 1) * k) or not srt or not (float(sr.min()) >= -tol):
                     rec.svd_bad.append((tuple(m.shape), e1, e2, e3, srt))
             return u, s, v
         D.rank_chop, D.SVD = rc, svd
@@ -359,7 +359,7 @@ def tt_case(rec, res, label, A, shp, N, M, eps, rmax):
             err = float(tn.linalg.norm((full - Ad.reshape(full.shape)).reshape(-1)))
             nrm = float(tn.linalg.norm(Ad.reshape(-1)))
             meps = 1.2e-7 if A.dtype in (tn.float32,) else 2.3e-16
-            if err > eps * nrm * (1 + 1e-7) + 100 * meps * nrm * math.sqrt(max(d, 1)) + 1e-300:
+            if not (err <= eps * nrm * (1 + 1e-7) + 100 * meps * nrm * math.sqrt(max(d, 1)) + 1e-300):      # NaN-safe
                 return "error %.6g exceeds eps*||A|| = %.6g (eps=%g, ranks %s)" % (err, eps * nrm, eps, R)
         return None
     trunc = True
